@@ -694,4 +694,79 @@ theorem update_refines (db : Db) (h : WF db) (es : List Entry) (hne : es ≠ [])
             leader := readIndex (commit c') sysLeaderIndex } : Spec.Table) = _
     rw [hkv, hidx, hlead]
 
+/-- what `FSM.Update` tells the applied-index listener is what the committed store reports: the
+leader index when an entry of the batch carried one, else the local index -/
+theorem update_notified (db : Db) (h : WF db) (es : List Entry) (hne : es ≠ []) (hes : ∀ e ∈ es, EntryWF e) :
+    ∃ db' rs n, update db es = .ok (db', rs, n) ∧
+      (n = readIndex db' sysLeaderIndex ∨ (n = readIndex db' sysLocalIndex ∧ ∀ e ∈ es, e.leaderIndex = none)) := by
+  have r0 : Rel { batch := { view := db } } (absT db) (readIndex db sysLeaderIndex) :=
+    ⟨h, rfl, rfl, fun li hli => by cases hli⟩
+  obtain ⟨c', e, r, s, i⟩ := applyEntries_refines es hes _ _ _ r0
+  obtain ⟨i1, i2⟩ := i hne
+  refine ⟨commit c', (Spec.applyLog (absT db) es).2, c'.notified, by simp only [update, bind, Except.bind, pure, Except.pure, e], ?_⟩
+  cases hl : c'.leaderIndex with
+  | some li =>
+    left
+    unfold Ctx.notified commit readIndex
+    simp only [hl]
+    rw [SMap.get?_set _ _ _ _ (SMap.sorted_set _ _ _ r.wf.1)]
+    simp only [Ne.symm sys_ne, if_false]
+    rw [SMap.get?_set _ _ _ _ r.wf.1]
+    simp only [if_true]
+    exact (unLe64_le64 _ (r.liBound li hl)).symm
+  | none =>
+    right
+    constructor
+    · unfold Ctx.notified commit readIndex
+      simp only [hl]
+      rw [SMap.get?_set _ _ _ _ r.wf.1]
+      simp only [if_true]
+      exact (unLe64_le64 _ i2).symm
+    · -- no entry carried a leader index: otherwise the context would hold the last one
+      have key : ∀ (l : List Entry) (c c2 : Ctx) (rs : List Result), applyEntries c l = .ok (c2, rs) →
+          c2.leaderIndex = none → (c.leaderIndex = none ∧ ∀ e ∈ l, e.leaderIndex = none) := by
+        intro l
+        induction l with
+        | nil =>
+          intro c c2 rs he hn
+          simp only [applyEntries, pure, Except.pure] at he
+          injection he with he; injection he with he _; subst he
+          exact ⟨hn, fun e he => by cases he⟩
+        | cons x xs ih =>
+          intro c c2 rs he hn
+          simp only [applyEntries, bind, Except.bind] at he
+          cases h1 : applyEntry c x with
+          | error err => simp [h1] at he
+          | ok p1 =>
+            obtain ⟨c1, r1⟩ := p1
+            simp only [h1] at he
+            cases h2 : applyEntries c1 xs with
+            | error err => simp [h2] at he
+            | ok p2 =>
+              obtain ⟨c3, rs2⟩ := p2
+              simp only [h2, pure, Except.pure] at he
+              injection he with he; injection he with he _; subst he
+              obtain ⟨hc1, hxs⟩ := ih c1 c3 rs2 h2 hn
+              -- c1.leaderIndex = (c.parse x).leaderIndex
+              have hc1' : c1.leaderIndex = (c.parse x).leaderIndex := by
+                simp only [applyEntry, bind, Except.bind] at h1
+                cases h3 : handle (c.parse x).batch x.cmd with
+                | error err => simp [h3] at h1
+                | ok p3 =>
+                  simp only [h3, pure, Except.pure] at h1
+                  injection h1 with h1; injection h1 with h1 _; subst h1; rfl
+              rw [hc1'] at hc1
+              simp only [Ctx.parse] at hc1
+              cases hx : x.leaderIndex with
+              | some v => simp [hx] at hc1
+              | none =>
+                simp only [hx] at hc1
+                refine ⟨by simpa using hc1, ?_⟩
+                intro e he
+                simp only [List.mem_cons] at he
+                rcases he with rfl | he
+                · exact hx
+                · exact hxs e he
+      exact (key es _ c' _ e hl).2
+
 end Regatta.Refine
